@@ -16,7 +16,13 @@ SHORT = dict(dest_port="dport", dest_cpu="dcpu", src_port="sport", src_cpu="scpu
 
 
 def le4(v):
-    return [] if v is None else list(struct.pack("<I", v))
+    """a 32-bit argument as four little-endian bytes ([] for None); a value that is no unsigned 32-bit integer (a
+    decoder gone wrong) is sent as four -1s, which equal no bytes and are judged by the specification"""
+    if v is None:
+        return []
+    if not isinstance(v, int) or not 0 <= v < 1 << 32:
+        return [-1, -1, -1, -1]
+    return list(struct.pack("<I", v))
 
 
 def rec_of(p, scp):
